@@ -105,6 +105,24 @@ def run(ctx):
     py_cases, rs_cases = cases_for(b2)
     compare(py_cases, rs_cases, "run-at-budget")
 
+    # ------------------------------------------------------------------ the heap limit itself
+    hp, meta = heap_limit_cases(ctx)
+    hg = vlib.run_model("py26", ["glue %d" % w for _, w in meta])
+    hr = [c.rsplit(" ", 1)[0] + " " + g for c, g in zip(hp, hg)]
+    po = pywheel.run_py("py26", hp, shards=min(8, len(hp)))
+    ro = vlib.run_impl("run26", hr, shards=min(8, len(hr)))
+    for c, c2, a, b, (t, w) in zip(hp, hr, po, ro, meta):
+        ctx.evaluations += 1
+        ctx.histogram("heap_limit", "word=%#x %s" % (w, " ".join(a.split()[:2])[:24]))
+        if a != b:
+            ctx.violation("heap limit: the wheel and the Rust core with the model's heap limit disagree (filler %d bytes, flag word %#x)" % (t, w),
+                          {"case": c[:300] + "...", "family": "py26", "runner": "pywheel", "impl": a, "rust": b,
+                           "regenerate": "lib/props/c26.py heap_limit_cases: filler=%d word=%d" % (t, w)})
+    outs = {(t, w): a for (t, w), a in zip(meta, po)}
+    t_lo, t_hi = meta[0][0], meta[len(meta) // (2 if not ctx.thorough else 4)][0]
+    if not (outs[(t_lo, 4)].startswith("ok") and outs[(t_hi, 4)].startswith("err Out_of_Memory") and outs[(t_hi, 0)].startswith("ok")):
+        ctx.notes.append("heap-limit calibration did not bracket the limit: %s" % {k: v[:30] for k, v in outs.items()})
+
     # ------------------------------------------------------------------ ser_* / deser_* / views
     trees = [gen.gen_tree(r, r.choice([1, 2, 3, 5, 8, 13, 30]), share=r.choice([0, 0.3])) for _ in range(ctx.scale(250, 5000))]
     trees = [t for t in trees if _size(t) < 100000]
@@ -187,6 +205,50 @@ def run(ctx):
         if a.startswith("MISMATCH") or a.startswith("crash"):
             ctx.violation("clvm_rs.serde wrapper differs from the direct call",
                           {"case": c[:3000], "family": "py26", "runner": "pywheel", "impl": a})
+
+
+def _heap_prog(k):
+    """(strlen (concat 2 2)) wrapped k times in (a (q . P) (c (concat 2 2) 3)): doubles the first
+    environment item k+1 times; the second environment item only occupies heap"""
+    I = gen.int_to_bytes
+    L = gen_py._list
+    p = L([b"\x0d", L([b"\x0e", I(2), I(2)])])
+    for _ in range(k):
+        p = L([b"\x02", (b"\x01", p), L([b"\x04", L([b"\x0e", I(2), I(2)]), I(3)])])
+    return gen.py_ser(p)
+
+
+def heap_limit_cases(ctx):
+    """programs that end just below / just above the 500 000 000 byte heap limit. The doubling
+    chain allocates 1907 * (2^18 - 1) = 499 902 901 bytes plus a small constant; the filler atom
+    moves the total across the limit. Quick tier: +-2000 bytes around the limit; thorough tier:
+    the exact threshold is found on the Rust harness by bisection and the wheel is run at the
+    threshold and one byte above."""
+    k, s0, L = 16, 1907, 500000000
+    base = L - s0 * (2 ** (k + 2) - 1)          # 97099: filler size at which the total is about L
+    prog = gen.hx(_heap_prog(k))
+
+    def env(t):
+        return gen.hx(gen.py_ser((gen.Rep(0x41, s0), gen.Rep(0x42, t))))
+    pts = [base - 2200, base + 2000]
+    if ctx.thorough:
+        lo, hi = base - 2200, base + 2000
+        while lo < hi:
+            mid = (lo + hi + 1) // 2
+            o = vlib.run_impl("run26", ["run %s %s 0 4 %d" % (prog, env(mid), L)], shards=1)[0]
+            if o.startswith("ok"):
+                lo = mid
+            else:
+                hi = mid - 1
+        pts += [lo, lo + 1]
+        ctx.notes.append("heap-limit threshold (filler bytes) found on the Rust harness: %d" % lo)
+    words = [4, 0x80000004, 0, 0xFFFFFFFB]
+    py, meta = [], []
+    for t in pts:
+        for w in words:
+            py.append("run %s %s 0 %d" % (prog, env(t), w))
+            meta.append((t, w))
+    return py, meta
 
 
 def _size(t):
